@@ -119,6 +119,17 @@ func c01Check(c c01Case) fw.Outcome {
 			}
 		}
 	}
+	// the same shapes translated through Move: an indexed shape keeps answering after a move
+	mdx, mdy := adapt.F(3, c.Enc.Scale), adapt.F(-5, c.Enc.Scale)
+	moved := make([]geometry.Geometry, len(geoms))
+	for i, g := range geoms {
+		switch v := g.(type) {
+		case *geometry.Line:
+			moved[i] = v.Move(mdx, mdy)
+		case *geometry.Poly:
+			moved[i] = v.Move(mdx, mdy)
+		}
+	}
 	// object-level operands
 	obj := adapt.Obj(s, encs[0], 0)
 	feat := adapt.Obj(s, encs[0], 2)
@@ -154,6 +165,12 @@ func c01Check(c c01Case) fw.Outcome {
 			}
 			if rev != want {
 				return fw.Failf(label, "Point%v.Intersects<%s>(%v) = %v, exact membership %v (index %+v)", q, kind, s, rev, want, encs[gi])
+			}
+			if moved[gi] != nil {
+				mp := geometry.Point{X: gp.X + mdx, Y: gp.Y + mdy}
+				if got := moved[gi].ContainsPoint(mp); got != want {
+					return fw.Failf(label, "%v moved by Move(%g,%g): ContainsPoint(%v moved) = %v, exact membership %v (index %+v)", s, mdx, mdy, q, got, want, encs[gi])
+				}
 			}
 		}
 		// object level: Point and SimplePoint against the object and a Feature wrapping it
@@ -405,6 +422,32 @@ func c01Enum(tier string, yield func(c01Case) bool) {
 			}
 		}
 	}
+	// polygons with two holes that may overlap, nest, share edges or stick out: every 3-vertex hole on a 3x3
+	// sub-lattice listed first, then one of a few fixed second holes (hole order matters to a loop that stops early)
+	sub := []exact.P{}
+	for _, p := range lat4 {
+		if p.X >= 2 && p.X <= 6 && p.Y >= 2 && p.Y <= 6 && p.X%2 == 0 && p.Y%2 == 0 {
+			sub = append(sub, p)
+		}
+	}
+	second := [][]exact.P{
+		{{X: 2, Y: 2}, {X: 6, Y: 2}, {X: 6, Y: 6}, {X: 2, Y: 6}},
+		{{X: 0, Y: 0}, {X: 4, Y: 0}, {X: 4, Y: 4}, {X: 0, Y: 4}, {X: 0, Y: 0}},
+		{{X: 2, Y: 2}, {X: 6, Y: 4}, {X: 2, Y: 6}},
+		{{X: 4, Y: 0}, {X: 8, Y: 4}, {X: 4, Y: 8}, {X: 0, Y: 4}},
+	}
+	for _, ext := range exts[:2] {
+		for _, h2 := range second {
+			if !tuples(sub, 3, func(p []exact.P) bool {
+				if !emit(exact.Shape{K: exact.KPoly, Ext: ext, Holes: [][]exact.P{p, h2}}) {
+					return false
+				}
+				return emit(exact.Shape{K: exact.KPoly, Ext: ext, Holes: [][]exact.P{h2, p}})
+			}) {
+				return
+			}
+		}
+	}
 	// lines
 	for _, l := range []int{1, 2, 3} {
 		if !tuples(lat4, l, func(p []exact.P) bool { return emit(exact.Shape{K: exact.KLine, Line: p}) }) {
@@ -429,7 +472,7 @@ func c01Enum(tier string, yield func(c01Case) bool) {
 func c01Subs() []fw.Sub {
 	return []fw.Sub{fw.Prop[c01Case]{
 		Name:       "point-membership",
-		Exhaustive: "all polygons whose exterior is any vertex sequence of length 3..4 on the even 4x4 lattice (thorough: 3..5, and 3..4 on 5x5), three fixed exteriors x all 3-vertex holes (thorough: 4-vertex too), all lines of 1..3 positions, all rects and points on that lattice, each against every integer (= half-lattice) point of its box extended by one unit, under index none / R-tree / quadtree",
+		Exhaustive: "all polygons whose exterior is any vertex sequence of length 3..4 on the even 4x4 lattice (thorough: 3..5, and 3..4 on 5x5), three fixed exteriors x all 3-vertex holes (thorough: 4-vertex too), two exteriors x every 3-vertex hole of a 3x3 sub-lattice paired in both orders with four fixed second holes, all lines of 1..3 positions, all rects and points on that lattice, each against every integer (= half-lattice) point of its box extended by one unit, under index none / R-tree / quadtree",
 		Enum:       c01Enum,
 		Checks: func(tier string) int {
 			if tier == "thorough" {
